@@ -586,7 +586,6 @@ func genConsCLI(w *out.W, tier string) (rule string) {
 			continue
 		}
 		if invalid {
-			continue2 := false
 			beforeCk := false
 			if i := versionIdx(j.store, j.cons.ver); i >= 0 {
 				ck := ckFlags(j.store)
@@ -594,14 +593,10 @@ func genConsCLI(w *out.W, tier string) (rule string) {
 					beforeCk = beforeCk || ck[f.n]
 				}
 			}
-			switch {
-			case oc == "proceeds" && beforeCk:
-				w.Violation(id, "executeto-before-checkpoint-unvalidated", fmt.Sprintf("%s: version %s lies before a checkpoint file: migrate.Validate = %s but the command went on: %s", what, j.cons.ver, j.api.v, res))
-				continue2 = true
-			}
 			switch oc {
 			case "proceeds":
-				if continue2 {
+				if beforeCk {
+					w.Violation(id, "executeto-before-checkpoint-unvalidated", fmt.Sprintf("%s: version %s lies before a checkpoint file: migrate.Validate = %s but the command went on: %s", what, j.cons.ver, j.api.v, res))
 					break
 				}
 				if j.cons.model == "import" && j.api.v == "notfound" {
@@ -673,10 +668,10 @@ func (d *recDrv) Snapshot(context.Context) (migrate.RestoreFunc, error) {
 }
 
 type libOpt struct {
-	name             string
-	dirty, allow     bool
-	baseline         string
-	order            migrate.ExecOrder
+	name         string
+	dirty, allow bool
+	baseline     string
+	order        migrate.ExecOrder
 }
 
 type libOp struct {
